@@ -3,7 +3,10 @@ package props
 import (
 	"encoding/json"
 	"fmt"
+	"io"
 	"math/rand"
+	"os"
+	"os/exec"
 	"reflect"
 	"sort"
 	"strings"
@@ -294,7 +297,7 @@ func (c03) ID() string { return "C03" }
 func (c03) Meta() Meta {
 	return Meta{
 		Level:       "exploration",
-		Rule:        "differential monitor: every query (all entry points; seeded cursors) on a (source, file state) pair is executed (i) R times in a row on one decoder, (ii) again after a seeded sequence of 1-30 other queries, (iii) on a freshly rebuilt decoder/schema/files (new map objects); (i) and (ii) use ONE PathDecoder per path for the whole sequence, so state kept on it is part of the history, and the canonical dumps must be identical (order kept for candidates, tokens, symbols, targets incl. nested, origins, lookups; diagnostics as multisets). Go re-randomises map iteration on every range statement, so every repetition samples new iteration orders. distinct non-trivial = distinct (source, state, query kind, cursor) whose result has >= 2 elements on a path whose schema has a map with >= 2 entries.",
+		Rule:        "differential monitor: every query (all entry points; seeded cursors) on a (source, file state) pair is executed (i) R times in a row on one decoder, (ii) again after a seeded sequence of 1-30 other queries, (iii) on a freshly rebuilt decoder/schema/files (new map objects), (iv) for multi-path workspaces in two FRESH PROCESSES that ask the paths in opposite order (process-wide caches must not make an answer depend on which path - with its own functions and schema - was asked first); (i) and (ii) use ONE PathDecoder per path for the whole sequence, so state kept on it is part of the history, and the canonical dumps must be identical (order kept for candidates, tokens, symbols, targets incl. nested, origins, lookups; diagnostics as multisets). Go re-randomises map iteration on every range statement, so every repetition samples new iteration orders. distinct non-trivial = distinct (source, state, query kind, cursor) whose result has >= 2 elements on a path whose schema has a map with >= 2 entries.",
 		Assumptions: []string{"equality is equality of the canonical dump (unexported fields included, pointer identities excluded, funcs as set/nil)", "map iteration orders are sampled, not enumerated"},
 		Floor:       map[string]int{"quick": 200, "thorough": 1000},
 		CaseBudget:  120,
@@ -313,6 +316,90 @@ func (p c03) NumUnits(tier string, seed int64) int {
 	return len(diffSources(tier, seed, q, t))
 }
 
+// Probe is the body of "vcheck probe <recipe-json> <fwd|rev>": in a process of
+// its own it builds the workspace, asks a fixed list of queries path by path -
+// paths in declared order (fwd) or reversed (rev) - and prints one line
+// "<query>\t<hash of the canonical result>" per query. C03 compares the two
+// outputs: whatever a process remembers beyond a Decoder (package-level caches)
+// must not make an answer depend on which path was asked first.
+func Probe(recipeJSON, order string, out io.Writer) error {
+	var rc Recipe
+	if err := json.Unmarshal([]byte(recipeJSON), &rc); err != nil {
+		return err
+	}
+	ws, err := rc.Make()
+	if err != nil {
+		return err
+	}
+	env := ws.Build(true)
+	paths := append([]string{}, ws.Order...)
+	if order == "rev" {
+		for i, j := 0, len(paths)-1; i < j; i, j = i+1, j-1 {
+			paths[i], paths[j] = paths[j], paths[i]
+		}
+	}
+	for _, path := range paths {
+		for _, f := range env.SortedFiles(path) {
+			rnd := rand.New(rand.NewSource(int64(len(path)*131 + len(f))))
+			for _, q := range queryList(env, State{Path: path, File: f}, rnd, 40, -1) {
+				if q.Kind == core.QWorkspaceSymbols {
+					continue
+				}
+				fmt.Fprintf(out, "%s\t%016x\n", q.String(), dump.HashString(canon(q, env.Run(q), dump.Options{})))
+			}
+		}
+	}
+	return nil
+}
+
+// processOrderProbe runs Probe twice in fresh processes (fwd / rev) and compares.
+func (p c03) processOrderProbe(rc Recipe, rep *runner.Reporter) {
+	exe, err := os.Executable()
+	if err != nil {
+		return
+	}
+	rj := string(mustJSON(rc))
+	run := func(order string) (map[string]string, bool) {
+		cmd := exec.Command(exe, "probe", rj, order)
+		b, err := cmd.Output()
+		if err != nil {
+			rep.Count("probe_process_failures", 1)
+			return nil, false
+		}
+		m := map[string]string{}
+		for _, l := range strings.Split(string(b), "\n") {
+			if i := strings.LastIndex(l, "\t"); i > 0 {
+				m[l[:i]] = l[i+1:]
+			}
+		}
+		return m, true
+	}
+	fwd, ok1 := run("fwd")
+	rev, ok2 := run("rev")
+	if !ok1 || !ok2 {
+		return
+	}
+	rep.Eval(int64(len(fwd) + len(rev)))
+	rep.Count("fresh_process_order_probes", 1)
+	keys := make([]string, 0, len(fwd))
+	for k := range fwd {
+		keys = append(keys, k)
+	}
+	sort.Strings(keys)
+	reported := map[string]bool{}
+	for _, k := range keys {
+		if rev[k] != "" && rev[k] != fwd[k] {
+			kind := strings.SplitN(k, " ", 2)[0]
+			if reported[kind] {
+				continue
+			}
+			reported[kind] = true
+			rep.Violation(&runner.Witness{Sig: "NONDET " + kind + " depends-on-which-path-was-asked-first (fresh processes)", What: "the same query on the same inputs answers differently in two fresh processes that differ only in the order in which the paths of the workspace were asked",
+				Unit: mustJSON(diffUnit{Recipe: rc, Kind: "probe"}), Query: k})
+		}
+	}
+}
+
 func (p c03) RunUnit(idx int, tier string, seed int64, focus map[string]string, rep *runner.Reporter) {
 	q, t, reps, cursors, broken := c03Params(tier)
 	srcs := diffSources(tier, seed, q, t)
@@ -324,6 +411,9 @@ func (p c03) RunUnit(idx int, tier string, seed int64, focus map[string]string, 
 	base, err := rc.Make()
 	if err != nil {
 		return
+	}
+	if len(base.Order) >= 2 {
+		p.processOrderProbe(rc, rep)
 	}
 	for sti, st := range diffStates(base, rnd, broken) {
 		rep.Mark(idx, sti, -1, -1)
@@ -421,6 +511,10 @@ func (p c03) Replay(w *runner.Witness, rep *runner.Reporter) error {
 	var u diffUnit
 	if err := json.Unmarshal(w.Unit, &u); err != nil {
 		return err
+	}
+	if u.Kind == "probe" {
+		p.processOrderProbe(u.Recipe, rep)
+		return nil
 	}
 	p.runState(u.Recipe, State{u.Path, u.File, u.Mut}, 40, 10, unitRand(w.Seed, "C03", 0), rep, &u)
 	return nil
